@@ -4,13 +4,14 @@ import math
 
 from harness.core import pool, tb
 
-PROOF_MODULE = ["OdeVerif.Proofs.C13", "OdeVerif.Proofs.C13b", "OdeVerif.Proofs.RefineMixed", "OdeVerif.Proofs.RefineMixedExample", "OdeVerif.Proofs.RefineStep"]
-GENERATED = ["PyMixed", "PyStep"]
+PROOF_MODULE = ["OdeVerif.Proofs.C13", "OdeVerif.Proofs.C13b", "OdeVerif.Proofs.RefineMixed", "OdeVerif.Proofs.RefineMixedExample", "OdeVerif.Proofs.RefineStep", "OdeVerif.Proofs.RefineIntegratorInit"]
+GENERATED = ["PyMixed", "PyStep", "PyIntegratorInit"]
 THEOREMS = ["OdeVerif.C13.log_starts_at_iv", "OdeVerif.C13.time_strictly_increases", "OdeVerif.C13.ends_at_simTime",
             "OdeVerif.C13.precise_spike_once", "OdeVerif.C13.aliased_spike_once", "OdeVerif.C13.aliased_spike_boundary",
             "OdeVerif.C13.enforceBounds_spec", "OdeVerif.C13.inner_logs_enforced", "OdeVerif.C13.analytic_seen_exact", "OdeVerif.C13.analytic_seen_exact_at",
             "OdeVerif.Refine.integrateOde_refines",
-            "OdeVerif.Refine.lookup_updateAll", "OdeVerif.Refine.mixedStep_refines", "OdeVerif.Refine.stepLocals_analytic", "OdeVerif.Refine.stepLocals_numeric", "OdeVerif.Refine.stepLocals_indep_stale"]
+            "OdeVerif.Refine.lookup_updateAll", "OdeVerif.Refine.mixedStep_refines", "OdeVerif.Refine.stepLocals_analytic", "OdeVerif.Refine.stepLocals_numeric", "OdeVerif.Refine.stepLocals_indep_stale",
+            "OdeVerif.Refine.mixedInit_params", "OdeVerif.Refine.mixedInit_analytic_params", "OdeVerif.Refine.mixedInit_no_analytic", "OdeVerif.Refine.mixedInit_allSyms"]
 LEVEL = "proof"
 
 SYSTEMS = [
